@@ -30,7 +30,11 @@ RULE = ("seeded histories (quick 500 x ~45 steps, thorough 7000 x ~50) over a po
         "objects built with CreateWithQuantity on hand-made composing maps holding two units of one quantity type "
         "(both orders) with + and - applied to them on the LEFT (succeeding and failing) and * / on either side, powers of "
         "one amount in two units combined (exponent-aware unit matching on whole containers), "
-        "plus a malformed stream (class mixes, foreign units, bad dimensions, zero divisors); distinct = "
+        "IsValid / CheckValidity / ValidateValues (twice: cached verdict) on Scalars, FractionScalars and unsorted "
+        "Arrays / FixedArrays of six categories WITH limits (accepted and rejected), a caller scribbling (edit, append, "
+        "clear) into containers returned by GetValues(other unit) followed by GetValues / CreateCopy(unit) again, "
+        "plus a malformed stream (class mixes, foreign units, bad dimensions, zero divisors) and a stateless stream "
+        "(quick 1500, thorough 20000) validating list / tuple / float64 / float32 containers with NaNs; distinct = "
         "distinct history; non-trivial = some step involved an object that shares a container, a FractionValue "
         "or an interned quantity with an earlier pool member and at least one step allocated cells")
 EXHAUSTIVE = {"quick": False, "thorough": False}
@@ -48,7 +52,11 @@ ASSUMPTIONS = [
     "fraction parts are compared within 2e-8",
     "the memo table of CheckCategoryUnit and the identity of interned quantities are C05/C07's; the model interns "
     "by the same keys but identities are not compared here",
-    "POSC has no category with limits: only the limit-free branch of validation is exercised (limits: C12)",
+    "validation: the private database registers six categories with limits on top of POSC (POSC has none); "
+    "NaN and float32 containers are validated in a stateless stream (the history model has exact rationals only); "
+    "the Array's cached verdict is modelled as a memo table outside the heap and is not compared",
+    "a caller writes only into containers returned for ANOTHER unit (new objects); it never writes into the "
+    "container GetValues() hands out for the own unit, which is the Array's internal one by design",
 ]
 
 CORE = {
@@ -64,6 +72,18 @@ KINDS = ["list", "tuple", "ndarray"]
 BINOPS = {"add": operator.add, "sub": operator.sub, "mul": operator.mul, "div": operator.truediv,
           "floordiv": operator.floordiv}
 MAX_POOL = 40
+# categories WITH limits registered on top of POSC in the private database (POSC itself has none): inclusive and
+# exclusive bounds, one-sided and two-sided, default unit not always the base unit; the bounds are "odd" numbers so
+# that no generated value lands on one after a conversion
+LIMITED = [
+    dict(name="c13 bounded length", qtype="length", unit="m", min=0.0, max=123.456, minExcl=False, maxExcl=False, default=1.0),
+    dict(name="c13 positive length", qtype="length", unit="cm", min=-0.517, max=None, minExcl=True, maxExcl=False, default=1.0),
+    dict(name="c13 temperature", qtype="temperature", unit="degC", min=-41.3, max=411.7, minExcl=False, maxExcl=True, default=20.0),
+    dict(name="c13 short time", qtype="time", unit="s", min=None, max=1234.5, minExcl=False, maxExcl=True, default=1.0),
+    dict(name="c13 pressure", qtype="pressure", unit="Pa", min=-1.53, max=None, minExcl=False, maxExcl=False, default=0.0),
+    dict(name="c13 mass", qtype="mass", unit="kg", min=0.0123, max=3333.3, minExcl=True, maxExcl=False, default=1.0),
+]
+_EXTRA_CATS = []
 MAX_EXP = 6
 
 
@@ -227,7 +247,27 @@ def _run_op(db, pool, op):
             elif k == "pickle":
                 r = pickle.loads(pickle.dumps(pool[op["i"]]))
             elif k == "isValid":
-                return dict(ok=dict(t="bool", b=bool(pool[op["i"]].IsValid()), near=False)), None
+                o = pool[op["i"]]
+                return dict(ok=dict(t="bool", b=bool(o.IsValid()), near=_near_limit(o)), near=_near_limit(o)), None
+            elif k == "checkValidity":
+                o = pool[op["i"]]
+                near = _near_limit(o)
+                try:
+                    if op["how"] == "ValidateValues":
+                        o.ValidateValues(o.GetValues(), o.GetQuantity())
+                    else:
+                        o.CheckValidity()
+                except Exception as e:
+                    return dict(err=err_kind(e), near=near), None
+                return dict(ok=dict(t="unit"), near=near), None
+            elif k == "scribble":
+                o = pool[op["i"]]
+                r = o.GetValues(op.get("u"))
+                own = o.GetValues()
+                shared = None if _no_identity(r) else r is own
+                if r is not own and not isinstance(r, tuple):
+                    _scribble(r, op["how"])          # the CALLER writes into what it was handed
+                return dict(ok=dict(t="cont", shared=shared, kind=_kind_of(r), xs=[_hex(x) for x in r])), None
             elif k == "format":
                 o = pool[op["i"]]
                 if op["how"] == "str":
@@ -253,6 +293,40 @@ def _run_op(db, pool, op):
     except Exception as e:      # a result that cannot even be read
         return dict(err="unreadable result: " + err_kind(e)), None
     return out, r
+
+
+def _scribble(r, how):
+    import numpy
+
+    if isinstance(r, numpy.ndarray):
+        r[...] = 777.0
+    elif how == "append":
+        r.append(777.0)
+    elif how == "clear":
+        r.clear()
+    else:
+        r[:] = [777.0] * len(r)
+
+
+def _near_limit(o):
+    """a value that sits on a limit of its category after a unit conversion: the verdict is float rounding"""
+    try:
+        q = o.GetQuantity()
+        if q.IsDerived():
+            return False
+        ci = q.GetCategoryInfo()
+        if (ci.min_value is None and ci.max_value is None) or q.GetUnit() == ci.default_unit:
+            return False
+        for v in _floats(o)[:1] if type(o).__name__ == "FractionScalar" else _floats(o):
+            if type(o).__name__ == "FractionScalar":
+                v = float(o.GetValue())
+            w = q.ConvertScalarValue(v, ci.default_unit)
+            for lim in (ci.min_value, ci.max_value):
+                if lim is not None and abs(w - lim) <= 1e-9 * max(abs(lim), abs(w)):
+                    return True
+    except Exception:
+        pass
+    return False
 
 
 def _floats(o):
@@ -335,7 +409,8 @@ class Gen:
         self.db = ctx.db
         self.pool, self.ops = [], []
         extra = rng.sample(ctx.other_types, 2) if ctx.other_types else []
-        self.types = dict(CORE)
+        self.types = {qt: (list(us), list(cs) + [c["name"] for c in LIMITED if c["qtype"] == qt])
+                      for qt, (us, cs) in CORE.items()}
         for qt in extra:
             us = ctx.units[qt]
             self.types[qt] = (rng.sample(us, min(4, len(us))), ctx.cats.get(qt) or [qt])
@@ -556,6 +631,9 @@ class Gen:
                 return dict(k="lt", i=i, j=rng.choice(same if rng.random() < 0.85 else cmpb))
         if r < 0.66:
             i = rng.randrange(n)
+            if rng.random() < 0.15 and type(self.pool[i]).__name__ in ("Array", "FixedArray"):
+                return dict(k="scribble", i=i, u=None if rng.random() < 0.1 else self.unit_for(i),
+                            how=rng.choice(["edit", "append", "clear"]))
             return dict(k="getValue", i=i, u=None if rng.random() < 0.25 else self.unit_for(i))
         if r < 0.76:
             i = rng.randrange(n)
@@ -575,7 +653,11 @@ class Gen:
             if pk:
                 return dict(k="pickle", i=rng.choice(pk))
         if r < 0.9:
-            return dict(k="isValid", i=rng.randrange(n))
+            i = rng.randrange(n)
+            if rng.random() < 0.5:
+                return dict(k="isValid", i=i)
+            arr = type(self.pool[i]).__name__ in ("Array", "FixedArray")
+            return dict(k="checkValidity", i=i, how=rng.choice(["CheckValidity", "ValidateValues"] if arr else ["CheckValidity"]))
         if r < 0.94:
             i = rng.randrange(n)
             hows = ["str", "repr"] + (["GetFormatted"] if type(self.pool[i]).__name__ in ("Scalar", "FractionScalar") else [])
@@ -604,7 +686,7 @@ class Gen:
         c1, c2 = rng.sample(cs, 2)
         e1, e2 = rng.choice([(1, 1), (1, 1), (1, 1), (2, 1), (1, -1), (1, 2)])
         items = [[c1, u1, e1], [c2, u1 if unify else u2, e2]]
-        if rng.random() < 0.25:
+        if rng.random() < 0.25 and qt != "time":
             items.append(["time", rng.choice(["s", "min"]), rng.choice([-1, 1])])
         if reverse:
             items[0], items[1] = items[1], items[0]
@@ -658,6 +740,62 @@ class Gen:
             self.push(dict(k="arith", f=rng.choice(["mul", "div"]), a=dict(i=a), b=dict(i=b)))
         self.push(dict(k="eq", i=d, j=p if p is not None else d))
 
+    def pattern_limits(self):
+        """value objects of a category WITH limits (unsorted containers of every kind; some values inside, some
+        outside the limits), then IsValid / CheckValidity / ValidateValues on them, twice (the second time the
+        Array answers from its cached verdict), then a look at the values"""
+        rng = self.rng
+        lim = rng.choice(LIMITED)
+        us = self.types[lim["qtype"]][0]
+        made = []
+        for _ in range(rng.choice([1, 2, 3])):
+            n0 = len(self.pool)
+            u = rng.choice(us + [lim["unit"]])
+            r = rng.random()
+            xs = self.values(rng.choice([2, 3, 4, 5]))
+            if r < 0.55:
+                self.push(dict(k="mkArray", kind=rng.choice(KINDS + ["ndarray"]), xs=xs, u=u, c=lim["name"]))
+            elif r < 0.75:
+                self.push(dict(k="mkFixed", dim=len(xs), kind=rng.choice(KINDS + ["ndarray"]), xs=xs, u=u, c=lim["name"]))
+            elif r < 0.9:
+                self.push(dict(k="mkScalar", v=rng.choice(VALUES), u=u, c=lim["name"]))
+            else:
+                self.push(dict(k="mkFScalar", n=float(rng.choice([0, 1, 5, -2, 120])), num=rng.choice([0, 1, 3]),
+                               den=rng.choice([2, 4, 8]), u=u, c=lim["name"]))
+            if len(self.pool) > n0:
+                made.append(n0)
+        for i in made:
+            arr = type(self.pool[i]).__name__ in ("Array", "FixedArray")
+            for _ in range(2):
+                how = rng.choice(["IsValid", "CheckValidity"] + (["ValidateValues"] if arr else []))
+                self.push(dict(k="isValid", i=i) if how == "IsValid" else dict(k="checkValidity", i=i, how=how))
+            self.push(dict(k="getValue", i=i, u=None))
+
+    def pattern_scribble(self):
+        """the caller asks an Array for its values in another unit, writes into the container it got, and asks
+        again (GetValues, CreateCopy(unit=...)): the amounts must be the original ones"""
+        rng = self.rng
+        cands = [i for i in self.of_class("Array", "FixedArray")
+                 if not self.pool[i].GetQuantity().IsDerived() and self.pool[i].GetQuantityType() in self.types
+                 and len(self.pool[i]) > 0]
+        if not cands:
+            return
+        i = rng.choice(cands)
+        others = [u for u in self.types[self.pool[i].GetQuantityType()][0] if u != self.pool[i].GetUnit()]
+        if not others:
+            return
+        u = rng.choice(others)
+        if rng.random() < 0.4:
+            self.push(dict(k="getValue", i=i, u=u))
+        self.push(dict(k="scribble", i=i, u=u, how=rng.choice(["edit", "append", "clear"])))
+        for k in rng.sample(["getValue", "createCopy", "scribble", "getValue"], 3):
+            if k == "getValue":
+                self.push(dict(k="getValue", i=i, u=u))
+            elif k == "createCopy":
+                self.push(dict(k="createCopy", i=i, u=u, c=None))
+            else:
+                self.push(dict(k="scribble", i=i, u=u, how=rng.choice(["edit", "append", "clear"])))
+
     def pattern_powers(self):
         """x**e and (the same amount in another unit)**e, then + - * / between the two: the unit matching of the
         arithmetic then converts a whole operand value with an exponent (the `ratio ** exp` path)"""
@@ -705,6 +843,10 @@ class Gen:
                     self.pattern_powers()
                 elif x < 0.07:
                     self.pattern_two_units()
+                elif x < 0.1:
+                    self.pattern_limits()
+                elif x < 0.125:
+                    self.pattern_scribble()
                 else:
                     self.push(self.gen_op())
         finally:
@@ -719,13 +861,13 @@ def _enc_operand(a):
 def _encode(op):
     o = dict(k=op["k"])
     for key, v in op.items():
-        if key in ("k", "how"):
+        if key == "k" or (key == "how" and op["k"] != "scribble"):
             continue
         if isinstance(v, dict):
             o[key] = _enc_operand(v)
         elif key in ("u", "c", "cap"):
             if v is None:
-                if op["k"] in ("getValue", "createCopy"):
+                if op["k"] in ("getValue", "createCopy", "scribble"):
                     continue          # absent = None
                 o[key] = "0"
             else:
@@ -742,7 +884,17 @@ def _encode(op):
 
 
 def _history(ops):
-    return dict(op="history", ops=[_encode(o) for o in ops], _t=dict(ops=ops))
+    return dict(op="history", cats=_EXTRA_CATS, ops=[_encode(o) for o in ops], _t=dict(ops=ops))
+
+
+def _enc_cat(c):
+    d = dict(name=str(sym(c["name"])), qtype=str(sym(c["qtype"])), unit=str(sym(c["unit"])),
+             default=qstr(exact(c["default"])), minExcl=c["minExcl"], maxExcl=c["maxExcl"])
+    if c["min"] is not None:
+        d["min"] = qstr(exact(c["min"]))
+    if c["max"] is not None:
+        d["max"] = qstr(exact(c["max"]))
+    return d
 
 
 def setup(ctx):
@@ -750,11 +902,16 @@ def setup(ctx):
 
     db = UnitDatabase()
     UnitDatabase.FillUnitDatabaseWithPosc(db)
+    for c in LIMITED:
+        db.AddCategory(c["name"], c["qtype"], default_unit=c["unit"], default_value=c["default"], min_value=c["min"],
+                       max_value=c["max"], is_min_exclusive=c["minExcl"], is_max_exclusive=c["maxExcl"])
+    _EXTRA_CATS[:] = [_enc_cat(c) for c in LIMITED]
     ctx.db = db
     ctx.units = {qt: [i.unit for i in infos] for qt, infos in db.quantity_types.items()}
     cats = {}
     for name, ci in db.categories_to_quantity_types.items():
-        cats.setdefault(ci.quantity_type, []).append(name)
+        if not name.startswith("c13 "):
+            cats.setdefault(ci.quantity_type, []).append(name)
     ctx.cats = cats
     for qt, (us, cs) in CORE.items():
         for u in us:
@@ -777,10 +934,84 @@ def _gen(ctx, salt, n, steps):
             yield _history(ops)
 
 
+NAN = float("nan")
+
+
+def _gen_validate(ctx, salt, n):
+    """stateless: an Array / FixedArray over a container that may hold NaNs (list, tuple, float64 and float32
+    ndarray, unsorted) in a category with limits; IsValid / CheckValidity / ValidateValues must give the verdict
+    of the NaN-skipping scan and leave the container as it was"""
+    import numpy
+
+    rng = ctx.fresh_rng("C13/validate/" + salt)
+    for _ in range(n):
+        lim = rng.choice(LIMITED)
+        us, _cs = CORE[lim["qtype"]]
+        kind = rng.choice(["list", "tuple", "ndarray", "ndarray", "ndarray32"])
+        m = rng.choice([0, 1, 2, 3, 5, 8])
+        xs = [NAN if rng.random() < 0.25 else rng.choice(VALUES + [50.0, -100.0, 5000.0, 20.0]) for _ in range(m)]
+        if kind == "ndarray32":
+            xs = [float(numpy.float32(x)) for x in xs]
+        u = rng.choice(us)
+        yield dict(op="validate", cats=_EXTRA_CATS, c=str(sym(lim["name"])), u=str(sym(u)),
+                   xs=["nan" if x != x else qstr(exact(x)) for x in xs],
+                   _t=dict(c=lim["name"], u=u, kind=kind, xs=xs, cls=rng.choice(["array", "fixed"]) if m >= 2 else "array",
+                           how=rng.choice(["IsValid", "CheckValidity", "ValidateValues"]), twice=rng.random() < 0.3))
+
+
+def _nan_hex(v):
+    return ["nan" if x != x else float(x).hex() for x in v]
+
+
+def _run_validate(ctx, t):
+    """-> (verdict dict, container before, container after, near)"""
+    import numpy
+
+    from barril.units import Array, FixedArray
+    from barril.units.unit_database import UnitDatabase
+
+    db = _fresh_db(ctx)
+    UnitDatabase.PushSingleton(db)
+    try:
+        if t["kind"] == "ndarray32":
+            cont = numpy.array(t["xs"], dtype=numpy.float32)
+        else:
+            cont = _container(t["kind"], t["xs"])
+        a = (FixedArray(len(t["xs"]), cont, t["u"], t["c"]) if t["cls"] == "fixed" else Array(cont, t["u"], t["c"]))
+        before = (_kind_of(cont), _nan_hex(cont), _nan_hex(a.GetValues()), id(a.GetValues()))
+        ci = a.GetQuantity().GetCategoryInfo()
+        near = False
+        for x in t["xs"]:
+            if x == x and t["u"] != ci.default_unit:
+                w = a.GetQuantity().ConvertScalarValue(x, ci.default_unit)
+                near = near or any(lim is not None and abs(w - lim) <= 1e-9 * max(abs(lim), abs(w))
+                                   for lim in (ci.min_value, ci.max_value))
+        out = None
+        for _ in range(2 if t["twice"] else 1):
+            try:
+                with numpy.errstate(all="raise"):
+                    if t["how"] == "IsValid":
+                        out = dict(ok=bool(a.IsValid()))
+                    elif t["how"] == "CheckValidity":
+                        a.CheckValidity()
+                        out = dict(ok=True)
+                    else:
+                        a.ValidateValues(a.GetValues(), a.GetQuantity())
+                        out = dict(ok=True)
+            except Exception as e:
+                out = dict(ok=False) if err_kind(e) == "value" else dict(err=err_kind(e))
+        after = (_kind_of(cont), _nan_hex(cont), _nan_hex(a.GetValues()), id(a.GetValues()))
+    finally:
+        UnitDatabase.PopSingleton()
+    return out, before, after, near
+
+
 def cases(ctx):
     if ctx.tier == "quick":
+        yield from _gen_validate(ctx, "q", 1500)
         yield from _gen(ctx, "q", 500, 36)
     else:
+        yield from _gen_validate(ctx, "t", 20000)
         yield from _gen(ctx, "t", 7000, 42)
 
 
@@ -793,10 +1024,23 @@ def case_key(c):
 
 
 def show(c):
+    if c["op"] == "validate":
+        return c["_t"]
     return c["_t"]["ops"][:8]
 
 
 def impl(c, ctx):
+    if c["op"] == "validate":
+        try:
+            out, before, after, near = _run_validate(ctx, c["_t"])
+        except Exception as e:
+            return dict(err="harness:" + type(e).__name__ + ":" + str(e)[:120])
+        n = ctx.notes.setdefault("validate", {})
+        t = c["_t"]
+        key = "%s/%s/%s%s -> %s" % (t["cls"], t["kind"], t["how"], "/nan" if any(x != x for x in t["xs"]) else "",
+                                   out.get("ok", out.get("err")))
+        n[key] = n.get(key, 0) + 1
+        return dict(out, changed=before != after, near=near)
     ops = c["_t"]["ops"]
     try:
         outs, final, aliases, _pool = run_history(ctx, ops)
@@ -897,6 +1141,8 @@ def _snap_agree(rs, ms, M, extra=0):
 
 
 def _agree_step(op, io, mo, extra=0):
+    if op["k"] in ("isValid", "checkValidity") and io.get("near") and not io.get("changed"):
+        return None          # a value on a limit after a conversion: the verdict is float rounding
     if io.get("changed") or mo.get("changed"):
         return "operands changed: impl=%s model=%s %s" % (io.get("changed"), mo.get("changed"),
                                                           str(io.get("change"))[:300])
@@ -938,6 +1184,14 @@ def _agree_step(op, io, mo, extra=0):
 
 
 def agree(c, io, mo, ctx):
+    if c["op"] == "validate":
+        if io.get("changed"):
+            return "the validation changed the container it looked at"
+        if io.get("near"):
+            return None
+        real = io.get("ok") if "ok" in io else io.get("err")
+        model = True if "ok" in mo else (False if mo.get("err") == "value" else mo.get("err"))
+        return None if real == model else "verdict: impl=%s model=%s" % (real, model)
     ops = c["_t"]["ops"]
     if len(io["outs"]) != len(mo.get("outs", [])):
         return "number of steps: impl=%d model=%d (%s)" % (len(io["outs"]), len(mo.get("outs", [])), str(io["outs"][-1])[:200])
@@ -965,6 +1219,8 @@ def agree(c, io, mo, ctx):
 
 
 def nontrivial(c, io):
+    if c["op"] == "validate":
+        return len(c["_t"]["xs"]) >= 2
     shares = any(a is not None and a < i for i, a in enumerate(io["aliases"]))
     return shares and len(io["pool"]) > 8
 
@@ -976,9 +1232,18 @@ COPYING = ("copy", "createCopy", "pickle")
 def oracle(c, ctx):
     """C13 on the real code: no step changes any pool member; results of operations are new objects; copy,
     deepcopy, Copy, CreateCopy() and (Scalar, FixedArray) pickle round trips are equal to the original."""
-    from barril.units import FixedArray, Scalar
+    from barril.units import Array, FixedArray, Scalar
     from barril.units.unit_database import UnitDatabase
 
+    if c["op"] == "validate":
+        try:
+            _out, before, after, _near = _run_validate(ctx, c["_t"])
+        except Exception as e:
+            return dict(clause="the validation scenario cannot be run", error=repr(e)[:300])
+        if before != after:
+            return dict(clause="a validation operation changed the container of the Array it validated",
+                        scenario=c["_t"], before=before[:3], after=after[:3])
+        return None
     ops = c["_t"]["ops"]
     try:
         outs, _final, _aliases, pool = run_history(ctx, ops, stop_at_change=True)
@@ -996,8 +1261,30 @@ def oracle(c, ctx):
     try:
         pool = []
         for step, op in enumerate(ops):
-            out, new = _run_op(db, pool, op)
             k = op["k"]
+            expected = None
+            if k in ("getValue", "scribble") and op.get("u") is not None and op["i"] < len(pool) and isinstance(pool[op["i"]], Array):
+                # conversion results belong to the caller: a new object on every call
+                o = pool[op["i"]]
+                try:
+                    r1, own = o.GetValues(op["u"]), o.GetValues()
+                    if r1 is not own and not _no_identity(r1):
+                        r2 = o.GetValues(op["u"])
+                        if r2 is r1:
+                            return dict(clause="GetValues(unit) handed out the same container twice instead of a new "
+                                               "object: the caller's result is shared with the Array", step=step, op=op)
+                        expected = [_hex(x) for x in r2]
+                except Exception:
+                    expected = None
+            out, new = _run_op(db, pool, op)
+            if k == "scribble" and expected is not None and "ok" in out:
+                o = pool[op["i"]]
+                again = [_hex(x) for x in o.GetValues(op["u"])]
+                copied = [_hex(x) for x in o.CreateCopy(unit=op["u"]).GetValues()]
+                if again != expected or copied != expected:
+                    return dict(clause="after the caller wrote into a container returned by GetValues(unit), the Array "
+                                       "no longer gives the original amounts in that unit", step=step, op=op,
+                                expected=expected, GetValues=again, CreateCopy=copied)
             if "ok" in out and out["ok"].get("t") == "obj":
                 r = new if new is not None else pool[out["ok"]["i"]]
                 src = pool[op["i"]] if "i" in op and op["i"] < len(pool) else None
@@ -1017,6 +1304,7 @@ def oracle(c, ctx):
 
 
 def search(ctx):
+    yield from _gen_validate(ctx, "s", 2000)
     yield from _gen(ctx, "s", 400 if ctx.tier == "quick" else 3000, 40)
 
 
@@ -1039,6 +1327,12 @@ def _remap(op, p):
 
 
 def shrink(case, failure, ctx):
+    if case["op"] == "validate":
+        return case, failure
+    return _shrink_history(case, failure, ctx)
+
+
+def _shrink_history(case, failure, ctx):
     """cut the history after the failing step, then drop steps: those that add nothing to the pool, and those
     whose new pool member nobody refers to later (later indices are renumbered)"""
     ops = list(case["_t"]["ops"])
